@@ -124,7 +124,6 @@ Probe ==
         /\ UNCHANGED fired
   /\ UNCHANGED <<file, avail, failAt, start, got, p, ctr, unread, released, lastEnd>>
 
-RNext == ((\E n \in ReadSizes : Call(n)) \/ Fill \/ Probe) /\ UNCHANGED <<ws, wlog>>
 
 \* ---------------------------------------------------------------- writer machine
 WInitS == ws = WInit /\ wlog = [calls |-> 0, allOK |-> TRUE, dstCalls |-> 0]
@@ -134,11 +133,17 @@ DoWrite(n, f) == LET r == WWrite(ws, n, f) IN
 DoClose(f) == LET r == WClose(ws, f) IN
               /\ ws' = r.st /\ hist' = (IF KeepHist THEN Append(hist, [a |-> "close", n |-> 0, f |-> (IF f THEN 1 ELSE 0), ret |-> 0, err |-> r.err]) ELSE hist)
               /\ wlog' = [calls |-> wlog.calls + 1, allOK |-> wlog.allOK /\ r.err = "", dstCalls |-> Len(r.st.frames)]
-WNext == /\ wlog.calls < MaxWrites
-         /\ (ws.err # "closed" \/ ~KeepHist)
-         /\ \/ \E n \in WriteSizes : \E f \in (IF Faults THEN 0..(Flushes(ws.buf, n)) ELSE {0}) : DoWrite(n, f)
-            \/ \E f \in (IF Faults THEN BOOLEAN ELSE {FALSE}) : DoClose(f)
-         /\ UNCHANGED rvars
+\* top-level actions (one per critical section / environment step), so that TLC reports coverage per action
+RCall == Mode = "reader" /\ (\E n \in ReadSizes : Call(n)) /\ UNCHANGED <<ws, wlog>>
+RFill == Mode = "reader" /\ Fill /\ UNCHANGED <<ws, wlog>>
+RProbe == Mode = "reader" /\ Probe /\ UNCHANGED <<ws, wlog>>
+WCanStep == Mode = "writer" /\ wlog.calls < MaxWrites /\ (ws.err # "closed" \/ ~KeepHist)
+WWriteA == /\ WCanStep
+           /\ \E n \in WriteSizes : \E f \in (IF Faults THEN 0..(Flushes(ws.buf, n)) ELSE {0}) : DoWrite(n, f)
+           /\ UNCHANGED rvars
+WCloseA == /\ WCanStep
+           /\ \E f \in (IF Faults THEN BOOLEAN ELSE {FALSE}) : DoClose(f)
+           /\ UNCHANGED rvars
 
 WriterIdleReader == /\ file = <<>> /\ avail = 0 /\ failAt = -1
                     /\ pos = 0 /\ eofSeen = FALSE /\ fired = FALSE /\ phase = "idle" /\ start = 0 /\ got = 0 /\ p = 0
@@ -147,7 +152,7 @@ Init == /\ hist = <<>>
         /\ (IF Mode = "reader"
             THEN (RInitS /\ ws = WInit /\ wlog = [calls |-> 0, allOK |-> TRUE, dstCalls |-> 0])
             ELSE (WInitS /\ WriterIdleReader))
-Next == IF Mode = "reader" THEN RNext ELSE WNext
+Next == RCall \/ RFill \/ RProbe \/ WWriteA \/ WCloseA
 Spec == Init /\ [][Next]_vars
 
 \* ---------------------------------------------------------------- properties
